@@ -286,9 +286,81 @@ def _leaf_kinds(fails):
   return cases
 
 
+def _undeclared_and_legacy(fails):
+  """(1) a boxed variable stacked by nn.vmap WITHOUT a declared partition name is refused, never returned with names that no
+  longer line up; (2) the legacy param_with_axes / scan_with_axes / vmap_with_axes API: one name per dimension for ranks 0-2"""
+  import jax
+  import jax.numpy as jnp
+  import flax.linen as nn
+  from flax.linen import partitioning as nnp
+  from flax.core import unfreeze
+  from flax.traverse_util import flatten_dict
+  from jax.sharding import PartitionSpec as P
+  cases = 0
+
+  class Boxed(nn.Module):
+    @nn.compact
+    def __call__(self, x):
+      k = self.param('kernel', nn.with_partitioning(nn.initializers.lecun_normal(), ('in', 'out')), (3, 4))
+      return x @ k
+  for kw in ({}, {'metadata_params': {}}):
+    cases += 1
+    V = nn.vmap(Boxed, variable_axes={'params': 0}, split_rngs={'params': True}, in_axes=0, **kw)
+    try:
+      v = V().init(jax.random.key(0), jnp.ones((5, 2, 3)))
+      box = v['params']['kernel']
+      fails.append(dict(inputs=dict(api='linen', transform='vmap', metadata_params='omitted' if not kw else '{}', program='boxed kernel stacked on axis 0, no partition name declared'),
+                        observed=f'accepted: value of shape {np.shape(box.value)} boxed with names {box.names}', violated='names-align-with-dims'))
+      return cases
+    except Exception:  # noqa  (PartitioningUnspecifiedError)
+      pass
+
+  class Layer(nn.Module):
+    @nn.compact
+    def __call__(self, c, _):
+      kernel = nnp.param_with_axes('kernel', nn.initializers.lecun_normal(), (3, 3), axes=('embed', 'mlp'))
+      bias = nnp.param_with_axes('bias', nn.initializers.zeros, (3,), axes=('mlp',))
+      gate = nnp.param_with_axes('gate', nn.initializers.ones, (), axes=())
+      count = nnp.variable_with_axes('stats', 'count', jnp.zeros, (), jnp.float32, axes=())
+      if self.is_mutable_collection('stats'):
+        count.value = count.value + 1.0
+      return (c @ kernel + bias) * gate, None
+  for kind, axis in (('scan_with_axes', 0), ('vmap_with_axes', 0)):     # axis 0 is the only stacking position valid for the rank-0 variables
+    cases += 1
+
+    class Stack(nn.Module):
+      @nn.compact
+      def __call__(self, x):
+        if kind == 'scan_with_axes':
+          T = nnp.scan_with_axes(Layer, variable_axes={'params': axis, 'stats': axis}, split_rngs={'params': True}, length=5, axis_name='layers', axes_collections=('params', 'stats'))
+        else:
+          T = nnp.vmap_with_axes(Layer, variable_axes={'params': axis, 'stats': axis}, split_rngs={'params': True}, in_axes=(0, None), out_axes=0,
+                                 partitioning_axis_names={'params': 'layers', 'stats': 'layers'})
+        y, _ = T(name='stack')(x, None)
+        return y
+    xin = jnp.ones((2, 3)) if kind == 'scan_with_axes' else jnp.ones((5, 2, 3))
+    try:
+      v = Stack().init(jax.random.key(0), xin)
+      for col in ('params', 'stats'):
+        arrays = flatten_dict(unfreeze(v[col]), sep='/')
+        specs = flatten_dict(unfreeze(nnp.get_axis_names(v[f'{col}_axes'])), sep='/')
+        for name, arr in arrays.items():
+          spec = specs.get(name)
+          rank_inner = np.ndim(arr) - 1
+          ax = min(axis, rank_inner)
+          if not isinstance(spec, P) or len(spec) != np.ndim(arr) or spec[ax] != 'layers':
+            fails.append(dict(inputs=dict(api='linen legacy partitioning', transform=kind, axis=axis, variable=f'{col}/{name}', inner_rank=rank_inner),
+                              observed=f'array of shape {np.shape(arr)} carries axis names {spec}: one name per dimension with `layers` at the stacking position is required', violated='names-align-with-dims'))
+            return cases
+    except Exception as e:  # noqa
+      fails.append(dict(inputs=dict(api='linen legacy partitioning', transform=kind, axis=axis), observed=f'raised {e!r}'[:300], violated='names-align-with-dims'))
+      return cases
+  return cases
+
+
 def run(tier, seed):
   cases, fails = 0, []
-  for part in (_linen, _nnx, _nnx_rules, _logical, _leaf_kinds):
+  for part in (_linen, _nnx, _nnx_rules, _logical, _leaf_kinds, _undeclared_and_legacy):
     try:
       cases += part(fails)
     except Exception:
@@ -298,7 +370,7 @@ def run(tier, seed):
       break
   return dict(name=NAME, cases=cases, distinct=cases,
               bound='linen.scan stacking axis {0,1,2} x 5 variable_axes layouts (plain / In / Out, both orders) + 8 nested scan/vmap cases; nnx vmap/scan: ranks 1-3 x every sharding prefix x every stacking axis; '
-                    'nnx.get_partition_spec under 5 sharding-rule sets; a linen variable holding a dict of boxes; _logical_to_mesh_axes: 4 name tuples x all ordered triples of 12 rules; linen get_partition_spec / get_sharding x 4 leaf kinds x ranks 0-3',
+                    'nnx.get_partition_spec under 5 sharding-rule sets; a linen variable holding a dict of boxes; _logical_to_mesh_axes: 4 name tuples x all ordered triples of 12 rules; linen get_partition_spec / get_sharding x 4 leaf kinds x ranks 0-3; vmap over a boxed variable without a declared name; scan_with_axes / vmap_with_axes over variables of rank 0-2',
               failures=fails[:2], error=None)
 
 
